@@ -23,9 +23,14 @@ def register_custom():
         return
     from oslo_policy import _checks
 
+    classes = {}
+
     def mk(kind, ident, arity):
+        # the classes are related by inheritance ACROSS arities: c4b (four parameters, the fourth not named
+        # current_rule) derives from the three-parameter c3a, and c3b (three parameters) from the four-parameter c4a
+        base = {41: classes.get('c3a'), 31: classes.get('c4a')}.get(ident) or _checks.Check
         if arity == 3:
-            class C(_checks.Check):
+            class C(base):
                 def __call__(self, target, creds, enforcer):
                     _trace.append(('custom', ident, 'NOARG'))
                     r = _custom_results.get(kind, True)
@@ -34,7 +39,7 @@ def register_custom():
                     return r
         elif ident == 41:
             # four arguments, but the fourth is not NAMED current_rule: _check goes by arity
-            class C(_checks.Check):
+            class C(base):
                 def __call__(self, target, creds, enforcer, rule_name=None):
                     _trace.append(('custom', ident, rule_name))
                     r = _custom_results.get(kind, True)
@@ -42,7 +47,7 @@ def register_custom():
                         raise r
                     return r
         else:
-            class C(_checks.Check):
+            class C(base):
                 def __call__(self, target, creds, enforcer, current_rule=None):
                     _trace.append(('custom', ident, current_rule))
                     r = _custom_results.get(kind, True)
@@ -50,8 +55,9 @@ def register_custom():
                         raise r
                     return r
         C.__name__ = 'Custom_' + kind
+        classes[kind] = C
         return C
-    for kind, ident in CUSTOM.items():
+    for kind, ident in sorted(CUSTOM.items(), key=lambda kv: kv[1] % 10):     # bases (30, 40) first
         _checks.register(kind, mk(kind, ident, 3 if ident < 40 else 4))
     _registered = True
 
@@ -235,6 +241,9 @@ def run_impl(case, deep=None):
     conf.set_override('enforce_scope', bool(case.get('enforce_scope', True)), group='oslo_policy')
     for k, v in case.get('conf', {}).items():
         conf.set_override(k, v, group='oslo_policy')
+    if 'enforce_scope_at_init' in case:
+        # the option has another value while the enforcer is built than when it is asked
+        conf.set_override('enforce_scope', bool(case['enforce_scope_at_init']), group='oslo_policy')
     if case.get('from_file'):
         # the rule set reaches the enforcer the way an operator's does: a policy file, loaded
         import json as _json
@@ -243,23 +252,46 @@ def run_impl(case, deep=None):
         with open(kw['policy_file'], 'w') as f:
             _json.dump(case['rules'], f)
         e = policy.Enforcer(conf, **kw)
+    elif case.get('from_dir'):
+        # ... or only a policy directory, with no policy file at all
+        import json as _json
+        import shutil as _shutil
+        from common import work_dir
+        d = os.path.join(work_dir(), 'pd_%d' % os.getpid())
+        _shutil.rmtree(d, ignore_errors=True)
+        os.makedirs(d)
+        with open(os.path.join(d, 'rules.json'), 'w') as f:
+            _json.dump(case['rules'], f)
+        conf.set_override('policy_dirs', [d], group='oslo_policy')
+        kw['policy_file'] = 'absent_%d.yaml' % os.getpid()
+        e = policy.Enforcer(conf, **kw)
     else:
         e = policy.Enforcer(conf, use_conf=False, **kw)
+    if 'enforce_scope_at_init' in case:
+        conf.set_override('enforce_scope', bool(case.get('enforce_scope', True)), group='oslo_policy')
     for name, types in case.get('registered', {}).items():
         e.register_default(policy.RuleDefault(name, case.get('registered_check', {}).get(name, '!'),
                                               scope_types=types or None))
     carrier = case.get('carrier', 'rules_same')
-    if case.get('from_file'):
+    if case.get('from_file') or case.get('from_dir'):
         e.load_rules()
     elif case.get('prehistory') is not None and carrier == 'rules_same':
-        # the rule store has a past: other definitions of the same names were in force (and an undefined name was
-        # enforced) before the current definitions were written over them in place
-        e.set_rules(policy.Rules.from_dict(case['prehistory'], e.default_rule), use_conf=False)
-        try:
-            e.enforce('zz_probe_undefined', {}, {'roles': ['x', 'y']})
-        except Exception:   # noqa
-            pass
-        e.set_rules(policy.Rules.from_dict(case['rules']), overwrite=False, use_conf=False)
+        # the rule store has a past: SOME names had other definitions (the rest already what they are now), the
+        # enforced rule and an undefined name were evaluated under them, and then the current definitions of
+        # exactly those names were written over the old ones in place -- every other check object stays the same
+        pre = dict(case['rules'])
+        pre.update(case['prehistory'])
+        e.set_rules(policy.Rules.from_dict(pre, e.default_rule), use_conf=False)
+        for probe in ([case['rule'][1]] if case['rule'][0] == 'name' else []) + ['zz_probe_undefined']:
+            try:
+                e.enforce(probe, dict(case['target']) if isinstance(case['target'], dict) else {},
+                          {'roles': ['x', 'y', 'r0', 'r1']})
+            except Exception:   # noqa
+                pass
+        e.set_rules(policy.Rules.from_dict({n: case['rules'][n] for n in case['prehistory']}), overwrite=False,
+                    use_conf=False)
+        del _trace[:]
+        _last_request.clear()
     elif carrier == 'dict':
         e.set_rules({k: _parser.parse_rule(v) for k, v in case['rules'].items()}, use_conf=False)
     elif carrier == 'rules_other':
@@ -364,6 +396,7 @@ def fresh_conf():
         opts._register(_conf)
     _conf.clear_override('policy_default_rule', group='oslo_policy')
     _conf.clear_override('enforce_scope', group='oslo_policy')
+    _conf.clear_override('policy_dirs', group='oslo_policy')
     for k in ('enforce_new_defaults', 'remote_content_type', 'remote_timeout',
               'remote_ssl_verify_server_crt', 'remote_ssl_ca_crt_file',
               'remote_ssl_client_crt_file', 'remote_ssl_client_key_file'):
